@@ -14,10 +14,11 @@ ID = "C10"
 LEVEL = "exploration"
 ALPHA = "0178 9afxXuUlL.ep+-'\"\\".replace(" ", "")
 RULE = ("exhaustive: every string of length <= 4 (quick) / <= 6 (thorough) over the 21-symbol alphabet "
-        "0 1 7 8 9 a f x X u U l L . e p + - ' \" \\ is lexed alone: 'exactly one literal token spanning the whole string, "
+        "0 1 7 8 9 a f x X u U l L . e p + - ' \" \\ (and every quoted string with a body of one symbol less) is lexed alone: 'exactly one literal token spanning the whole string, "
         "no error' must hold iff the reference recogniser says the string is a well-formed literal, with the same kind; "
         "strings in the malformed classes the property lists (bad octal digits, empty/unterminated character constant, "
-        "invalid escape) and comment openers must be reported at their first character; random longer literals from the "
+        "invalid escape) and comment openers must be reported at their first character, and a terminated quoted sequence "
+        "with an invalid escape or an empty character constant yields exactly one report and no token; random longer literals from the "
         "C99 grammar with random suffixes/prefixes and their one-edit neighbours; every accepted literal is also parsed "
         "as an initializer to observe Constant.type / Constant.value. Non-trivial: string of length >= 2; distinct by "
         "construction (exhaustive) / by text (random).")
@@ -128,6 +129,11 @@ def judge(ob, s, counters, parser=None):
             if not errs or (errs[0][1], errs[0][2]) != (1, 1):
                 return {"kind": "malformed-literal-not-reported-at-its-start", "sig": mc, "case": case,
                         "detail": {"class": mc, "observed_tokens": toks[:4], "errors": errs[:2]}}
+            if mc in ("invalid-escape", "empty-char-constant") and (toks or len(errs) != 1):
+                # a quoted, terminated sequence with a bad escape (or nothing) inside is one malformed literal:
+                # one report, and none of its characters may come back as other tokens
+                return {"kind": "malformed-literal-split-into-tokens", "sig": mc, "case": case,
+                        "detail": {"class": mc, "observed_tokens": toks[:4], "errors": errs[:3]}}
         return None
     counters["literals_accepted"] += 1
     counters["by_kind"][ref] = counters["by_kind"].get(ref, 0) + 1
@@ -170,7 +176,7 @@ def rand_literal(rnd):
                         lambda: d(rnd.randrange(1, 4), h) + "."])()
         return rnd.choice(["0x", "0X"]) + m + rnd.choice(["p", "P"]) + rnd.choice(["", "+", "-"]) + d(rnd.randrange(1, 4)) + rnd.choice(["", "f", "L"])
     chars = ["a", "Z", " ", "0", "+", "\\n", "\\t", "\\\\", "\\'", '\\"', "\\0", "\\123", "\\x41", "\\xfF", "\\?", "\\a", "\\e", "\\.", "\\_",
-             "\\12345", "\\x", "é", "@", "`", "#", "/", "*"]
+             "\\12345", "\\x", "é", "@", "`", "#", "/", "*", "\\+", "\\*", "\\%", "\\(", "\\ ", "\\$", "\\8", "\\'"]
     if r < 0.82:
         n = rnd.choice([1, 1, 1, 2, 3, 4])
         body = "".join(rnd.choice(chars) for _ in range(n))
@@ -220,6 +226,14 @@ def run_shard(spec):
                 run(s, True)
                 if L >= 2:
                     res["nontrivial_distinct"] += 1
+        # quoted strings of total length maxlen+1 (every 3- / 5-symbol body between matching quotes)
+        for q in "'\"":
+            for tup in itertools.product(ALPHA, repeat=spec["maxlen"] - 1):
+                idx += 1
+                if idx % spec["nshards"] != spec["shard"]:
+                    continue
+                run(q + "".join(tup) + q, True)
+                res["nontrivial_distinct"] += 1
         for s in ("/*", "//", "/* c */", "// c"):
             run(s, False)
         res["samples"].append({"strings": ["0x1p3", "'\\x'", "08", "1e+", "u8'a'"], "alphabet": ALPHA})
